@@ -22,6 +22,16 @@ def rand_req(rng, tags, multi=True, invalid=0.15, budget=None):
         n = rng.randint(1, 6)
         return {"op": "mu", "path": [["c", 2], ["i", 1]],
                 "reqs": [rand_req(rng, tags, multi=False, invalid=invalid) for _ in range(n)]}
+    if r >= 0.97:
+        # the class-level instance 0 of a class in use: its static attributes 1 (Revision) and 4 (Optional Attributes)
+        c = rng.choice([2, 2] + [x["addr"][0] for x in tags if x.get("addr")])
+        p = [["c", c], ["i", 0], ["a", rng.choice(lg.CLASS_ATTRS)]]
+        k = rng.random()
+        if k < 0.6:
+            return {"op": "gs", "path": p}
+        if k < 0.8:
+            return {"op": "rt", "path": p, "n": 1}
+        return {"op": "ss", "path": p, "data": [rng.randrange(256) for _ in range(3 if bad else 2)]}
     if r < 0.14 and t.get("addr"):
         c, i, a = t["addr"]
         p = [["c", c], ["i", i], ["a", a]]
